@@ -23,7 +23,6 @@ impl<'a> std::ops::Deref for Signer<'a> {
 pub struct InterfaceAccount<'a, T> { pub data: T, pub info: AccountInfo<'a> }
 impl<'a> crate::anchor_shim::SKey for Signer<'a> { open spec fn skey(&self) -> Pubkey { *self.info.key } }
 impl<'a, T> crate::anchor_shim::SKey for InterfaceAccount<'a, T> { open spec fn skey(&self) -> Pubkey { *self.info.key } }
-impl<'a, T> InterfaceAccount<'a, T> { pub fn key(&self) -> (r: Pubkey) ensures r == *self.info.key { *self.info.key } }
 impl TokenAccount { pub open spec fn is_frozen_spec(&self) -> bool { self.frozen } }
 impl<'a, T> std::ops::Deref for InterfaceAccount<'a, T> {
     type Target = T;
